@@ -35,7 +35,7 @@ Definition effective_auth (t : transport) (c : cred) : auth :=
   end.
 
 Record case := mkCase {
-  c_testbed : bool;                    (* testbed mode of the daemon instance *)
+  c_cfg : daemon_cfg;                  (* configuration of the daemon instance: ta_support_enabled, [testbed] present *)
   c_tr : transport;
   c_cred : cred;
   c_req : request;
@@ -59,6 +59,13 @@ Definition same_set (a b : list string) : bool :=
   forallb (fun x => mem_str x b) a && forallb (fun x => mem_str x a) b.
 
 Definition c_auth (c : case) : auth := effective_auth (c_tr c) (c_cred c).
+(** What testbed.rs:40 asks of the instance that answered (request.rs:61-63). *)
+Definition c_testbed (c : case) : bool := testbed_served (c_cfg c).
+
+(** A request must leave the state as it was when it is refused (401 / 403), and when it addresses a testbed
+    route of an instance that is not in testbed mode (404: for the caller the route does not exist). *)
+Definition must_not_change (tb : bool) (r : option route) (st : N) : bool :=
+  refused st || match r with Some r => rt_testbed r && negb tb | None => false end.
 
 (** Model and implementation agree on this request. *)
 Definition agrees (c : case) : bool :=
@@ -76,7 +83,7 @@ Definition agrees (c : case) : bool :=
          | NotFound => st =? 404
          end
        end)
-      && (negb (refused st) || negb (c_effect c))
+      && (negb (must_not_change (c_testbed c) (Some r) st) || negb (c_effect c))
       && match c_listing c, rt_filter r with
          | Some shown, Some f => same_set shown (listing_of (c_auth c) f (c_all c))
          | Some _, None => false
@@ -88,7 +95,7 @@ Definition agrees (c : case) : bool :=
 Definition c13_ok (c : case) : bool :=
   let st := c_status c in
   let a := c_auth c in
-  (negb (refused st) || negb (c_effect c))
+  (negb (must_not_change (c_testbed c) (find_route spec_routes (c_req c)) st) || negb (c_effect c))
   && match find_route spec_routes (c_req c) with
      | Some r =>
          (if rt_testbed r && negb (c_testbed c) then st =? 404
